@@ -38,7 +38,7 @@ def check_inputs(ctx, spec, env, objs, label):
     for (slot, param, default, un) in slots_of(spec):
         name = slot.split(".")[0]
         given = env.get(slot, default)
-        unit = env.units.get(slot, un)
+        unit = env.unit_of(slot, un)
         f = V.base_factor(M.u(unit).units)[0]
         got = V.quantity_base(getattr(objs[name], param).value)[1]
         ctx.eq(got, given * f, f"{label}: input {slot} keeps its physical value")
@@ -151,8 +151,10 @@ def plan(tier, seed):
     for sk in ("T1", "T4", "T5"):
         p.append(("fixed_point", dict(skeleton=sk, mode="reads")))
     p.append(("fixed_point", dict(skeleton="T1", mode="pairs")))
-    for sk in ("T1", "T7"):
+    for sk in ("T1", "T7", "TX"):
         p.append(("fixed_point", dict(skeleton=sk, mode="attrs")))
+    p.append(("fixed_point", dict(skeleton="TX", mode="each")))
+    p.append(("fixed_point", dict(skeleton="TX", mode="reads", args={"shared": True})))
     p.append(("fixed_point", dict(skeleton="T1", mode="inputs")))
     p.append(("fixed_point", dict(skeleton="T3", mode="pairs", pair_sample=seed + 1)))
     p.append(("fixed_point", dict(skeleton="T5", mode="each", args={"type1": "on-premise", "type2": "autoscaling", "fixed1": 4})))
